@@ -121,6 +121,21 @@ def observe(model, fam):
     if obs['has_sensitivities']:
         out, sens = res
         obs['sens'] = np.round(np.asarray(sens, dtype=float), 7).tolist()
+        # sensitivities for a SUBSET of the (possibly renamed) public names are the corresponding columns of the full array
+        if len(names) >= 2 and np.asarray(sens).shape[2] == len(names):
+            sub = [0, len(names) - 1]
+            if F['pren'][1] in names:          # the renamed parameter is part of the request
+                r_ = names.index(F['pren'][1])
+                sub = sorted({r_, (r_ + 1) % len(names)})
+            model.enable_sensitivities(True, [names[q] for q in sub])
+            with warnings.catch_warnings():
+                warnings.simplefilter('error', RuntimeWarning)
+                _, s_sub = model.simulate(np.array(vals), TIMES.copy())
+            model.enable_sensitivities(True)
+            if np.asarray(s_sub).shape != (np.asarray(sens).shape[0], np.asarray(sens).shape[1], 2) or \
+                    not np.allclose(np.asarray(s_sub, dtype=float), np.asarray(sens, dtype=float)[:, :, sub], rtol=1e-6, atol=1e-8):
+                raise AssertionError('sensitivities for the subset %r are not the corresponding columns (shape %r)' % (
+                    [names[q] for q in sub], np.asarray(s_sub).shape))
     else:
         out = res
     obs['sim'] = np.round(np.asarray(out, dtype=float), 7).tolist()
